@@ -94,7 +94,7 @@ PROPS = {
         "assumptions": [],
     },
     "C09": {
-        "lean": ["GV.Props.C09", "GV.Props.C09r"],
+        "lean": ["GV.Props.C09", "GV.Props.C09r", "GV.Props.Locks"],
         "scenarios": [{"scn": "orch", "n": {"quick": 400, "thorough": 5000},
                        "aspects": ["crash", "driver", "build"]},
                       {"scn": "eval", "filter": "ill", "n": {"quick": 300, "thorough": 4000},
@@ -210,7 +210,7 @@ PROPS = {
         "assumptions": [],
     },
     "C17": {
-        "lean": ["GV.Props.C17"],
+        "lean": ["GV.Props.C17", "GV.Props.Locks"],
         "scenarios": [{"scn": "pool", "filter": "cap", "n": {"quick": 120, "thorough": 1500},
                        "aspects": ["capacity", "double", "exec", "crash", "driver", "build"]}],
         "rule": "max+1 .. max+4 clients on pools (1,2) (2,3) (1,3) (2,4), every rule parks in an injected function, a third of the requests fail (panicking injected function); peak number of requests simultaneously inside their rules, completion of all clients after the gate opens, and a second round of max simultaneous requests",
@@ -229,7 +229,7 @@ PROPS = {
         "fingerprints": EVAL_FP, "assumptions": [],
     },
     "C18": {
-        "lean": ["GV.Props.C18"],
+        "lean": ["GV.Props.C18", "GV.Props.Locks"],
         "scenarios": [{"scn": "eval", "filter": "conc", "n": {"quick": 300, "thorough": 4000},
                        "aspects": ["value", "state", "trace", "cite", "hang", "panic", "shape", "driver", "build"]}],
         "rule": "programs in which about a third of the statements are conc blocks of 1-9 independent children (assignments to distinct fields / locals / pointer scalars, observer function calls and method calls with distinct arguments and a delay, at most one failing child: panic, unknown name, unknown field, dotted read of an undefined local), followed by statements that read what the block wrote; observer events of one block compared as a set, their position relative to the other events exactly; non-trivial = the rule ran to completion",
